@@ -29,17 +29,22 @@ def run_case(case):
         ezsp = await rig.connect(None)
         t0 = asyncio.ensure_future(ezsp.startup_reset())
         await rig.run_until(t0, 30)
-        events = [{"a": "cfg", "registered": 1 if registered else 0, "workload": workload, "kind": kind, "ver": ver}]
+        events = [{"a": "cfg", "registered": 1 if registered else 0, "workload": workload, "kind": kind, "ver": ver,
+                   "oneshot": 1 if registered == "oneshot" else 0}]
 
         def ev(d):
             d["t"] = loop.ms
             events.append(d)
         if registered:
+            cbid = []
+
             def cb(name, args):
                 if name == "_reset_controller_application":
                     ev({"a": "request"})
                     rig.failed_at = loop.ms
-            ezsp.add_callback(cb)
+                    if registered == "oneshot" and cbid:
+                        ezsp.remove_callback(cbid.pop())         # a one-shot listener: unregisters itself while handling the request
+            cbid.append(ezsp.add_callback(cb))
         import bellows.types as t_
         if workload in ("scan", "scanned_one"):
             # a list command (energy scan): the NCP answers, reports one result and the completion
@@ -252,8 +257,10 @@ def run(ctx: Ctx):
                     codes = (0x51, 0x52, 0x80, 0x00, 0x01, 0x02, 0x03, 0x06, 0x09, 0xFF)
                 for k in range(0, n + 2):
                     for placement in ("own", "same"):
-                        for reg in (True, False):
-                            if not reg and (k % 3 or placement == "same") and ctx.quick:
+                        for reg in (True, False, "oneshot"):
+                            if reg is not True and (k % 3 or placement == "same") and ctx.quick:
+                                continue
+                            if reg == "oneshot" and (kind in ("close", "close_slow", "cancelcaller") or wl not in ("idle", "one", "late_issue")):
                                 continue
                             code = codes[(k + len(cases)) % len(codes)]
                             if kind == "rstack" and code == 0x0B:
